@@ -9,7 +9,7 @@ Open Scope Z_scope.
 (* the tree the model describes: which repairs it contains (see Proxy.fixes).  Flags not yet
    true here are defects the checks still have to exhibit before they are repaired. *)
 Definition current_fixes : fixes :=
-  {| fx_wiring := true; fx_udp_via_listener := true; fx_indialog_invite := true; fx_bracket_host := true; fx_resolved_key := true |}.
+  {| fx_wiring := true; fx_udp_via_listener := true; fx_indialog_invite := true; fx_bracket_host := true; fx_resolved_key := true; fx_stale_pin := true |}.
 
 Definition d_listen : dec listen_cfg :=
   dlet a := d_bytes in dlet u := d_int in dlet t := d_int in dlet bs := d_list d_bytes in
@@ -29,7 +29,7 @@ Definition d_cfg : dec cfg :=
   dlet routes := d_list (d_pair d_bytes (d_pair d_bytes d_bytes)) in
   dlet hosts := d_list (d_pair d_bytes d_bytes) in
   dlet ls := d_list d_listen in
-  d_ret {| c_name := name; c_keep_next_hop := keep; c_dialog_timeout := dt; c_routes := routes;
+  d_ret {| c_name := name; c_keep_next_hop := keep; c_dialog_timeout := effective_dialog_timeout dt; c_routes := routes;
            c_hosts := hosts; c_listens := ls |}.
 Definition d_event : dec event :=
   dlet k := d_bytes in
